@@ -115,7 +115,7 @@ def make_worker(prop, evaluate, driver_setup=None, symrun=None):
                 out.append({'scen': concretise_scen(scen, m, d), 'msg': conds[i][1], 'kind': conds[i][2]})
             return out
         st = explore(ex, harness)
-        return {'paths': st['paths'], 'solver_calls': st['solver_calls'], 'asserts': st['asserts'], 'solver_s': st['solver_s'],
+        return {'paths': st['paths'], 'solver_calls': st['solver_calls'], 'asserts': st['asserts'], 'solver_s': st['solver_s'], 'cross': st['cross'],
                 'steps': st['steps'], 'infeasible': st['infeasible'], 'findings': st['findings'],
                 'cells': [str(cell)], 'cov_fns': list(ex.cov_fns), 'cov_prims': list(ex.cov_prims), 'sample': scen}
     return worker
